@@ -107,6 +107,11 @@ fn check_one(c: &One, obs: &mut Obs) {
             obs.fail("contains", format!("contains({:?}) = {}", p, !in_b(m, p)));
             break;
         }
+        // the ContainsPoint trait implementation is a separate entry point
+        if embedded_graphics::primitives::ContainsPoint::contains(&a, Point::new(p.0 as i32, p.1 as i32)) != in_b(m, p) {
+            obs.fail("contains-through-the-ContainsPoint-trait", format!("ContainsPoint::contains({:?}) = {}", p, !in_b(m, p)));
+            break;
+        }
     }
     // bottom_right
     match (a.bottom_right(), m) {
